@@ -214,6 +214,57 @@ Proof.
     + rewrite (padded_length ver phone Hl). destruct (ver =? V2019); reflexivity.
 Qed.
 
+(* any sequence of calls, calls that return nil included: the frames actually produced are those of
+   the calls that produce one, generated as if the others had never been made (a call without
+   handler leaves the Terminal as it was: no serial is consumed) *)
+Lemma create_pv t cmd body : t_pv (fst (create_command t cmd body)) = t_pv t.
+Proof. reflexivity. Qed.
+
+Lemma somes_cons {A} (o : option A) l :
+  somes (o :: l) = (match o with Some x => [x] | None => [] end) ++ somes l.
+Proof. reflexivity. Qed.
+
+Lemma effective_cons ver c cs :
+  effective ver (c :: cs) =
+  (match c with
+   | CDefault cmd => match default_body ver cmd with Some b => [(cmd, b)] | None => [] end
+   | CCustom cmd body => [(cmd, body)]
+   end) ++ effective ver cs.
+Proof. reflexivity. Qed.
+
+Theorem calls_frames cs : forall t,
+  somes (run_calls t cs) = create_all t (effective (t_pv t) cs).
+Proof.
+  induction cs as [|c cs IH]; intros t. reflexivity.
+  cbn [run_calls]. rewrite somes_cons, effective_cons, IH.
+  destruct c as [cmd|cmd body]; cbn [do_call].
+  - unfold create_default. destruct (default_body (t_pv t) cmd) as [b|]; cbn [fst snd app create_all]; reflexivity.
+  - cbn [fst snd app create_all]. reflexivity.
+Qed.
+
+Theorem calls_frames_decode ver phone cs k cmd body :
+  digits phone -> (length phone <= maxlen ver)%nat ->
+  nth_error (effective ver cs) k = Some (cmd, body) -> cmd < 65536 -> (length body <= 1023)%nat ->
+  exists t f m,
+    with_header ver phone = Ok t /\ nth_error (somes (run_calls t cs)) k = Some f /\
+    decode f = Ok m /\
+    m_id m = (if cmd =? 0 then 2 else cmd) /\
+    m_bcd m = phone_bcd ver phone /\ strip0 (phone_of m) = strip0 (map dchar phone) /\
+    m_ver m = (if ver =? V2019 then 1 else 0) /\ m_frag m = 0 /\ m_enc m = 0 /\
+    m_serial m = N.of_nat (S k) mod 65536 /\ m_body m = body /\ m_len m = len body.
+Proof.
+  intros Hd Hl Hn Hc Hb.
+  destruct (frames_decode ver phone (effective ver cs) k cmd body Hd Hl Hn Hc Hb) as (t & f & m & W & N1 & R).
+  exists t, f, m. split; auto. split; auto.
+  rewrite calls_frames. rewrite (with_header_ok ver phone Hd Hl) in W. inversion W; subst t.
+  exact N1.
+Qed.
+
+(* every default body fits a frame *)
+Lemma default_bodies_short :
+  forallb (fun e => (length (snd e) <=? 1023)%nat) default_bodies = true.
+Proof. vm_compute. reflexivity. Qed.
+
 (* the serial of a frame is one greater than that of the previous frame, wrapping after 65535 *)
 Theorem serial_progression k : N.of_nat (S (S k)) mod 65536 = (N.of_nat (S k) mod 65536 + 1) mod 65536.
 Proof. rewrite (Nat2N.inj_succ (S k)). lia. Qed.
